@@ -93,13 +93,23 @@ class Tabler:
             out = [Path(conds=c).extend(p) for c in tc for p in tp] + [Path(conds=c).extend(p) for c in fc for p in fp]
             return self._cap(out)
         if k == "Match" and n.get("src") in ("Normal", "Postfix"):
-            scrut = self.namer(n["e"])
+            # an arm `P => body` is the condition `let P = scrutinee` (same atom as the if-let spelling, so the
+            # namer sees one form); a guard-free last arm is reached exactly when all earlier arms failed
+            # (rustc checked exhaustiveness), so it contributes no atom of its own
             out = []
             negs = ()
-            for arm in n["arms"]:
-                pat = core.pat_str(arm["pat"])
+            arms = n["arms"]
+            for ai, arm in enumerate(arms):
                 wild = arm["pat"].get("k") in ("Wild",) or (arm["pat"].get("k") == "Binding" and "sub" not in arm["pat"])
-                here = negs if wild else negs + ((f"{scrut} is {pat}", True),)
+                if ai == len(arms) - 1 and "guard" not in arm and len(arms) > 1:
+                    wild = True
+                if wild:
+                    atom = None
+                    here = negs
+                else:
+                    tl, _fl = self.cond({"k": "LetExpr", "pat": arm["pat"], "init": n["e"]})
+                    atom = tl[0][0][0]
+                    here = negs + ((atom, True),)
                 body = self.paths(arm["body"])
                 if "guard" in arm:
                     tg, fg = self.cond(arm["guard"])
@@ -111,7 +121,7 @@ class Tabler:
                     continue
                 out += [Path(conds=here).extend(p) for p in body]
                 if not wild:
-                    negs = negs + ((f"{scrut} is {pat}", False),)
+                    negs = negs + ((atom, False),)
             return self._cap(out)
         if k == "Ret":
             inner = self.paths(n["e"]) if "e" in n else [Path()]
